@@ -40,6 +40,7 @@ open Humphrey
 accepted connection is the business of the pool's task (C08) and of the connection loop (C01). -/
 inductive Traffic where
   | justAccepted | idleKeepAlive | halfSent | handlerShort | handlerLong | responseWriting | wsOpen
+  | pipelined   -- several complete requests received on the connection, the first one being handled
   deriving DecidableEq, Repr
 
 /-- What `accept` can return. -/
